@@ -1005,7 +1005,11 @@ class MetricFrame:
                 result.append(GroupFeature(base_name, column, i, None))
         else:
             # Need to specify dtype to avoid inadvertent type conversions
-            f_arr = np.squeeze(np.asarray(features, dtype=object))
+            f_arr = np.asarray(features, dtype=object)
+            if f_arr.ndim != 2:
+                f_arr = np.atleast_1d(np.squeeze(f_arr))
+            elif f_arr.shape[1] == 1:
+                f_arr = f_arr[:, 0]
             if len(f_arr.shape) == 1:
                 check_consistent_length(f_arr, sample_array)
                 result.append(GroupFeature(base_name, f_arr, 0, None))
